@@ -24,11 +24,16 @@ PROFILES = {
                     "type": 6, "raw_step": 6, "set_node_markup": 4, "delete": 3, "join": 2}},
     "C08": {"schemas": schemas.NAMES, "byz": (0.0, 0.0), "faults": 0.5, "mix": None,
             "translate": 0.6, "undo_p": 0.2},
-    "C10": {"schemas": schemas.NAMES, "byz": (0.0, 0.3), "faults": 0.5, "mix": None, "clipboard": 0.1},
+    "C10": {"schemas": schemas.NAMES, "byz": (0.0, 0.3), "faults": 0.5, "clipboard": 0.1,
+            "mix": {"add_mark": 10, "remove_mark": 6, "mark_run": 8, "mark_sweep": 10, "raw_step": 6, "type": 8, "paste": 5,
+                    "paste_range": 3, "insert_node": 3, "split": 3, "join": 2, "lift": 2, "wrap": 2,
+                    "set_block_type": 3, "set_node_markup": 2, "add_node_mark": 3, "remove_node_mark": 1,
+                    "set_node_attribute": 4, "set_doc_attribute": 2, "delete": 4, "backspace": 3,
+                    "delete_range": 2}},
     "C16": {"schemas": sorted(["basic", "list", "title", "headbody", "iso", "table", "strict"]),
             "byz": (0.0, 0.0), "faults": 0.4, "merge": True,
             "mix": {"type": 14, "type_run": 10, "backspace": 10, "delete": 5, "paste": 8, "add_mark": 10,
-                    "remove_mark": 8, "mark_run": 10, "insert_node": 3, "split": 2, "set_block_type": 2, "raw_step": 4,
+                    "remove_mark": 8, "mark_run": 10, "seam_pair": 8, "insert_node": 3, "split": 2, "set_block_type": 2, "raw_step": 4,
                     "paste_range": 3}},
     "C17": {"schemas": sorted(["basic", "list", "title", "headbody", "iso", "table", "strict"]),
             "byz": (0.0, 0.0), "faults": 0.3, "mix": None, "probe17": True, "spread": True},
